@@ -11,6 +11,6 @@ CONSTANTS
   HistViews = FALSE
   OrderedBegin = FALSE
 VIEW View0
-INVARIANTS TypeOK RingConsistent InOrder NoDirty PrefixRule CompleteKF AtomicKF CleanupSafe SeekConsistentKF SeekKFExact EmitState
+INVARIANTS TypeOK RingConsistent InOrder NoDirty PrefixRule CompleteKF AtomicKF CleanupSafe SeekConsistent SeekNoDirty EmitState
 PROPERTIES Stable
 CHECK_DEADLOCK FALSE
